@@ -128,7 +128,7 @@ Prog(l) ==
                             C("pt", "m", "c3", "k3"), C("pt", "m", "c4", "k4")>>
 Env0(l) ==
   CASE l = "unit"      -> {[m |-> m, I |-> IdS] : m \in SMats(Mats)}
-    [] l = "assoc"     -> {[a |-> a, b |-> b, c |-> c] : a \in SMats(Mats), b \in SMats(MatsFew), c \in SMats(MatsOne)}
+    [] l = "assoc"     -> {[a |-> a, b |-> b, c |-> c] : a \in SMats(Mats), b \in SMats(MatsOne), c \in SMats(MatsFew)}
     [] l = "compose"   -> {[m1 |-> m1, m0 |-> m0, p |-> p] : m1 \in SMats(Mats), m0 \in SMats(MatsOne), p \in SPts}
     [] l = "translate" -> {[m |-> m, v |-> v, nv |-> NegV(v), T |-> TransMS(v), O |-> OriginS] : m \in SMats(Mats), v \in SPts}
     [] l = "norm"      -> {[m |-> m, v |-> v, O |-> OriginS] : m \in SMats(Mats), v \in SPts}
